@@ -12,13 +12,15 @@ CONSTANTS MaxOps,       \* operations per client
           MaxFaults,
           Horizon,
           IdleClock,    \* BOOLEAN
+          Types,        \* service types the clients may use in registry operations
           ExtraActors,  \* function: further pre-spawned actors -> configuration (children, bystanders)
           ExtraHandles, \* function: further initial handles -> [kind, a, owner]
           Names         \* sequence of fresh handle names
 
 NoCfg == [cap |-> Unb, strat |-> "restart", stream |-> FALSE, tmo |-> 0, failto |-> FALSE, owning |-> FALSE,
-          sscr |-> <<>>, pscr |-> <<>>, fscr |-> <<>>]
-Op(k, x, nh, s, d, to) == [op |-> k, h |-> x, nh |-> nh, a |-> "none", scr |-> s, cfg |-> NoCfg, d |-> d, to |-> to]
+          sscr |-> <<>>, pscr |-> <<>>, fscr |-> <<>>, ty |-> "0"]
+Op(k, x, nh, s, d, to) == [op |-> k, h |-> x, nh |-> nh, a |-> "none", scr |-> s, cfg |-> NoCfg, d |-> d, to |-> to, ty |-> "0", nh2 |-> "none"]
+RegOp(k, x, T, nh, nh2) == [op |-> k, h |-> x, nh |-> nh, a |-> "none", scr |-> <<>>, cfg |-> NoCfg, d |-> 0, to |-> "none", ty |-> T, nh2 |-> nh2]
 
 VARIABLE nf   \* faults injected so far
 mcvars == <<vars, nf>>
@@ -26,6 +28,9 @@ mcvars == <<vars, nf>>
 FreshIdx == CHOOSE i \in 1..Len(Names) : Names[i] \notin DOMAIN hnd /\ \A j \in 1..(i - 1) : Names[j] \in DOMAIN hnd
 HasFresh == \E i \in 1..Len(Names) : Names[i] \notin DOMAIN hnd /\ \A j \in 1..(i - 1) : Names[j] \in DOMAIN hnd
 Fresh == Names[FreshIdx]
+FreshIdx2 == CHOOSE i \in 1..Len(Names) : i > FreshIdx /\ Names[i] \notin DOMAIN hnd /\ \A j \in (FreshIdx + 1)..(i - 1) : Names[j] \in DOMAIN hnd
+HasFresh2 == HasFresh /\ \E i \in 1..Len(Names) : i > FreshIdx /\ Names[i] \notin DOMAIN hnd
+Fresh2 == Names[FreshIdx2]
 
 \* InitKinds : [Client -> [h : handle name, kind : handle kind]]
 MCInit ==
@@ -33,7 +38,7 @@ MCInit ==
        act = [a \in Actor |-> IF a = "a1"
                    THEN [UnbornActor EXCEPT !.pc = "starting", !.cap = cf.cap, !.strat = cf.strat, !.stream = cf.stream,
                                             !.tmo = cf.tmo, !.failto = cf.failto, !.sscr = cf.sscr, !.pscr = cf.pscr,
-                                            !.fscr = cf.fscr, !.inst = 1, !.jh = IF cf.owning THEN "held" ELSE "none"]
+                                            !.fscr = cf.fscr, !.inst = 1, !.ty = cf.ty, !.jh = IF cf.owning THEN "held" ELSE "none"]
                    ELSE IF a \in DOMAIN ExtraActors
                    THEN LET ef == ExtraActors[a] IN
                         [UnbornActor EXCEPT !.pc = "starting", !.cap = ef.cap, !.strat = ef.strat, !.sscr = ef.sscr, !.pscr = ef.pscr,
@@ -57,6 +62,9 @@ OpsFor(c) ==
   IN  UNION {{Op(k, x, "none", s, 0, c) : s \in Scripts} : <<k, x>> \in msgOps \X mine}
       \cup {Op(k, x, "none", <<>>, 0, c) : <<k, x>> \in plain \X mine}
       \cup (IF HasFresh THEN {Op(k, x, Fresh, <<>>, 0, c) : <<k, x>> \in conv \X mine} ELSE {})
+      \cup (IF HasFresh2 THEN {RegOp(k, x, "0", Fresh, Fresh2) : <<k, x>> \in (OpSet \cap {"register", "replace"}) \X {y \in mine : hnd[y].kind = "addr"}}
+                              \cup {RegOp(k, "none", T, Fresh, Fresh2) : <<k, T>> \in (OpSet \cap {"from_registry", "setup", "unregister", "try_from_registry", "already_running"}) \X Types}
+             ELSE {})
 
 Sch == UNCHANGED <<cur, yl, nf>>
 CanOp(c) == cli[c].n < MaxOps
@@ -70,6 +78,10 @@ A_Upgrade     == \E c \in Client : CanOp(c) /\ \E o \in OpsFor(c) : Upgrade(c, o
 A_DropH       == \E c \in Client : CanOp(c) /\ \E o \in OpsFor(c) : DropH(c, o) /\ Sch
 A_Detach      == \E c \in Client : CanOp(c) /\ \E o \in OpsFor(c) : Detach(c, o) /\ Sch
 A_JoinBegin   == \E c \in Client : CanOp(c) /\ \E o \in OpsFor(c) : JoinBegin(c, o) /\ Sch
+A_RegIssue    == \E c \in Client : CanOp(c) /\ \E o \in OpsFor(c) : RegIssue(c, o) /\ Sch
+A_TryFromRegistry == \E c \in Client : CanOp(c) /\ \E o \in OpsFor(c) : TryFromRegistry(c, o) /\ Sch
+A_RegBody     == \E c \in Client : RegBody(c) /\ Sch
+A_RegPingReturn == \E c \in Client : RegPingReturn(c) /\ Sch
 A_Flushed     == \E c \in Client : Flushed(c) /\ Sch
 A_RespReturn  == \E c \in Client : RespReturn(c) /\ Sch
 A_AwaitReturn == \E c \in Client : AwaitReturn(c) /\ Sch
@@ -106,6 +118,7 @@ A_Cancel      == /\ "cancel" \in Faults /\ nf < MaxFaults
 
 MCNext ==
   \/ A_SubmitForce \/ A_SubmitWait \/ A_AwaitBegin \/ A_Query \/ A_Convert \/ A_Upgrade \/ A_DropH \/ A_Detach
+  \/ A_RegIssue \/ A_TryFromRegistry \/ A_RegBody \/ A_RegPingReturn
   \/ A_JoinBegin \/ A_Flushed \/ A_RespReturn \/ A_AwaitReturn \/ A_JoinReturn
   \/ A_StartedBegin \/ A_ScriptStep \/ A_StartedEnd \/ A_Dequeue \/ A_MailboxClosed \/ A_StopTaken
   \/ A_PingHandled \/ A_HandleBegin \/ A_HandleEnd \/ A_TimeoutFire \/ A_RestartTaken \/ A_RestartStopped
@@ -123,6 +136,7 @@ ProgramsDone == \A c \in Client : cli[c].n = MaxOps \/ {x \in DOMAIN hnd : hnd[x
 \* C05 WeakInert / C02: in a terminal state nothing hangs on a dead actor, and an actor that
 \* nobody can reach any more has terminated
 Term_WeakInert == Quiescent => \A a \in Used : ~ChanOpen(a) => Terminated(a)
+Term_RegNoHang == Quiescent => \A c \in Client : cli[c].stage \notin {"reglock", "regping"}
 Term_StopHonoured == Quiescent => \A a \in Used : hst.stopAcc[a] => Terminated(a)
 \* C10 NoLeak: in a terminal state no timer task of a terminated actor is left
 Term_NoTimerLeak == Quiescent => \A i \in DOMAIN tmr : Terminated(tmr[i].a) => tmr[i].st = "ended"
@@ -137,7 +151,7 @@ Term_ExactlyK == (IdleClock /\ Quiescent) => \A i \in DOMAIN tmr :
 Y == Eff("yield", 0, "")
 Cfg(cap, strat, tmo, failto, owning, sscr, pscr) ==
   [cap |-> cap, strat |-> strat, stream |-> FALSE, tmo |-> tmo, failto |-> failto, owning |-> owning,
-   sscr |-> sscr, pscr |-> pscr, fscr |-> <<>>]
+   sscr |-> sscr, pscr |-> pscr, fscr |-> <<>>, ty |-> "0"]
 ScriptsCore == {<<>>, <<Y>>}
 ScriptsPlain == {<<>>}
 CfgsCore == {Cfg(cap, "restart", 0, FALSE, FALSE, <<<<>>>>, <<Y>>) : cap \in {Unb, 0, 1}}
@@ -156,6 +170,8 @@ ScriptsFail == {<<>>, <<Y>>, <<P>>}
 ScriptsSleep == {<<>>, <<Sl(1)>>, <<Sl(3)>>}
 ScriptsSleep2 == {<<>>, <<Sl(1)>>, <<Sl(2)>>, <<Sl(3)>>, <<Y, Sl(2)>>}
 NoExtra == <<>>
+CfgsSvc == {[Cfg(Unb, "restart", 0, FALSE, FALSE, <<<<>>>>, <<Y>>) EXCEPT !.ty = "1"]}
+NamesMore == <<"n1", "n2", "n3", "n4", "n5", "n6">>
 \* parent a1 with children a2 (unit bucket, also held by c2) and a3 (bc bucket, child of a2: depth 3)
 TreeActors == ("a2" :> Cfg(Unb, "restart", 0, FALSE, FALSE, <<<<Eff("register_bc", 0, "k3")>>>>, <<Y>>))
            @@ ("a3" :> Cfg(1, "restart", 0, FALSE, FALSE, <<<<>>>>, <<>>))
